@@ -49,6 +49,11 @@ func (t PredefinedTopics) GetTopicID(clientID, topic string) (uint16, bool) {
 	if tAll, ok := t["*"]; ok {
 		for topicID, topicName := range tAll {
 			if topicName == topic {
+				// The "*" entry can be overridden by a client-specific
+				// entry with the same topic ID.
+				if name, _ := t.GetTopicName(clientID, topicID); name != topic {
+					continue
+				}
 				return topicID, true
 			}
 		}
